@@ -37,6 +37,7 @@ struct Merged {
     per_profile: BTreeMap<String, (u64, u64, u64)>,
     nontrivial: HashSet<u64>,
     nontrivial_mod: u64,
+    nontrivial_direct: u64,
     crashes: u64,
 }
 
@@ -47,6 +48,10 @@ fn merge_worker(m: &mut Merged, v: &Value, hashes: &Path) {
     m.executions += g("executions");
     m.cases += g("cases");
     m.nontrivial_mod = m.nontrivial_mod.max(g("nontrivial_mod"));
+    if v.get("profile").and_then(|x| x.as_str()) == Some("rel") {
+        // both profiles explore the same space: count engine-deduplicated cases once
+        m.nontrivial_direct += g("nontrivial_direct");
+    }
     let profile = v.get("profile").and_then(|x| x.as_str()).unwrap_or("?").to_string();
     let e = m.per_profile.entry(profile.clone()).or_insert((0, 0, 0));
     e.0 += g("executions");
@@ -491,7 +496,7 @@ fn run_inner(def: &PropDef, tier: Tier, seed: u64, jobs_max: usize, scratch: &Pa
     coverage.insert("transitions".into(), json!(merged.transitions.max(1)));
     coverage.insert("traces_validated_against_impl".into(), json!(merged.executions));
     coverage.insert("evaluations".into(), json!(merged.executions.max(1)));
-    coverage.insert("distinct_nontrivial".into(), json!(merged.nontrivial.len()));
+    coverage.insert("distinct_nontrivial".into(), json!(merged.nontrivial.len() as u64 + merged.nontrivial_direct));
     coverage.insert(
         "rule".into(),
         json!(format!(
@@ -552,7 +557,7 @@ fn run_inner(def: &PropDef, tier: Tier, seed: u64, jobs_max: usize, scratch: &Pa
         merged.states,
         merged.transitions,
         merged.executions,
-        merged.nontrivial.len(),
+        merged.nontrivial.len() as u64 + merged.nontrivial_direct,
         merged.hist.len(),
         n_new,
         n_known,
